@@ -22,6 +22,11 @@ IsSpacedOp(it) == IsBinOp(it) \/ IsAssignOp(it)
 IsComma(it) == IsLit(it, ", ")
 Has(l, P(_)) == FirstIdx(l.items, P) # 0
 IsOperandItem(it) == it.s \in {"v", "p", "num"}
+IsNL(it) == it = NLc
+IsLeadOp(it) == it.s = "L" /\ it.x \in {"+ ", "- ", "&& ", "|| "}
+EolForm == [x \in {"+ ", "- ", "&& ", "|| ", "* "} |-> IF x = "+ " THEN " +" ELSE IF x = "- " THEN " -" ELSE IF x = "&& " THEN " &&"
+                                                       ELSE IF x = "|| " THEN " ||" ELSE " *"]
+PhysOff(op) == IF op \in {"cont_less_tab", "cont_more_tab"} THEN 1 ELSE 0
 
 BodyKinds == {"stmt", "ctrl"}
 CodeKinds == {"stmt", "ctrl", "decl", "funchead", "global", "proto", "include", "define", "field"}
@@ -31,7 +36,7 @@ LocalOps == {
   "trail_space", "trail_tab", "space_indent", "less_tab", "more_tab", "double_space", "tab_before_op",
   "no_space_before_op", "no_space_after_op", "no_space_after_comma", "space_before_comma",
   "kw_no_space", "kw_semicolon", "space_after_lpar", "space_before_rpar", "return_no_paren", "two_instr",
-  "ternary", "ternary_first_operand", "ternary_last_operand", "mult_assign", "assign_in_control", "for_loop", "goto", "label",
+  "ternary", "ternary_first_operand", "ternary_last_operand", "cont_less_tab", "cont_more_tab", "eol_operator", "mult_assign", "assign_in_control", "for_loop", "goto", "label",
   "mult_decl", "decl_assign", "decl_space_not_tab", "decl_extra_tab", "star_space", "vla", "capital_var",
   "no_void", "space_before_func", "two_tabs_func", "capital_func", "paren_space_func",
   "define_expr", "macro_func", "include_c", "include_nospace", "space_before_hash", "lower_macro",
@@ -56,6 +61,9 @@ Code(op) ==
     [] op = "return_no_paren" -> {"RETURN_PARENTHESIS"}
     [] op = "two_instr" -> {"TOO_MANY_INSTR"}
     [] op \in {"ternary", "ternary_first_operand", "ternary_last_operand"} -> {"TERNARY_FBIDDEN"}
+    [] op = "cont_less_tab" -> {"TOO_FEW_TAB"}
+    [] op = "cont_more_tab" -> {"TOO_MANY_TAB"}
+    [] op = "eol_operator" -> {"EOL_OPERATOR"}
     [] op = "mult_assign" -> {"MULT_ASSIGN_LINE"}
     [] op = "assign_in_control" -> {"ASSIGN_IN_CONTROL"}
     [] op = "for_loop" -> {"FORBIDDEN_CS"}
@@ -116,6 +124,10 @@ App(op, l, i) ==
     (* the forbidden construct in EVERY statement context: an operand of a call statement, a return, a condition, *)
     (* an index ... becomes a conditional expression                                                            *)
     [] op \in {"ternary_first_operand", "ternary_last_operand"} -> l.k \in BodyKinds /\ Has(l, IsOperandItem)
+    (* statements split over two physical lines: the continuation line one tab short / one tab too many (reported on *)
+    (* the continuation line), the operator left at the end of the first line                                       *)
+    [] op \in {"cont_less_tab", "cont_more_tab"} -> l.k \in {"stmt2", "ctrl2"}
+    [] op = "eol_operator" -> l.k \in {"stmt2", "ctrl2"} /\ Has(l, IsLeadOp)
     [] op \in {"assign_in_control", "for_loop"} -> l.k = "ctrl" /\ Has(l, LAMBDA it : IsLit(it, "while ("))
     [] op \in {"goto", "label"} -> l.k = "stmt" /\ l.st = "IsFunctionCall" /\ LeadTabs(l.items) = 1
     [] op \in {"mult_decl", "decl_assign", "decl_space_not_tab", "star_space", "vla", "capital_var"} -> l.k = "decl"
@@ -162,6 +174,11 @@ Rw(op, l) ==
                                  Repl(Repl(its, Len(its), <<L(";", 1)>>), jr, <<L("return ", 7)>>)
     [] op = "two_instr" -> its \o <<L(" ", 1), V1, L(" = ", 3), N1, L(";", 1)>>
     [] op = "ternary" -> SubSeq(its, 1, je) \o <<V1, L(" ? ", 3), V3, L(" : ", 3), N1, L(";", 1)>>
+    [] op = "cont_less_tab" -> Repl(its, FirstIdx(its, IsNL) + 1, <<>>)
+    [] op = "cont_more_tab" -> Repl(its, FirstIdx(its, IsNL), <<NLc, TAB1>>)
+    [] op = "eol_operator" -> LET jl == FirstIdx(its, IsLeadOp)
+                                  jn == FirstIdx(its, IsNL)
+                              IN SubSeq(its, 1, jn - 1) \o <<L(EolForm[its[jl].x], its[jl].w)>> \o SubSeq(its, jn, jl - 1) \o SubSeq(its, jl + 1, Len(its))
     [] op = "ternary_first_operand" -> Repl(its, FirstIdx(its, IsOperandItem), <<V1, L(" ? ", 3), V3, L(" : ", 3), N1>>)
     [] op = "ternary_last_operand" -> Repl(its, LastIdx(its, IsOperandItem), <<V1, L(" ? ", 3), V3, L(" : ", 3), N1>>)
     [] op = "mult_assign" -> SubSeq(its, 1, je) \o <<V5, L(" = ", 3)>> \o SubSeq(its, je + 1, Len(its))
@@ -317,7 +334,7 @@ Violate ==
     /\ \/ \E op \in (IF Sim THEN Pick({o \in LocalOps : LocalSites(o) # {}}) ELSE {o \in LocalOps : LocalSites(o) # {}}) :
           \E i \in (IF Sim THEN Pick(LocalSites(op)) ELSE LocalSites(op)) :
              /\ prog' = [prog EXCEPT ![i].items = Rw(op, prog[i])]
-             /\ viol' = [op |-> op, line |-> i, code |-> Code(op), site |-> SiteOf(op, prog[i])]
+             /\ viol' = [op |-> op, line |-> i, code |-> Code(op), site |-> SiteOf(op, prog[i]), off |-> PhysOff(op)]
        \/ \E op \in (IF Sim THEN Pick({o \in StructOps : StructSites(o) # {}}) ELSE {o \in StructOps : StructSites(o) # {}}) :
           \E i \in (IF Sim THEN Pick(StructSites(op)) ELSE StructSites(op)) :
              LET r == ApplyStruct(op, i) IN
